@@ -21,6 +21,9 @@ let parse_op_l (lq : int -> string -> nat) (ls : int -> string -> nat) (t : stri
   | ["sm"; j; i] -> SMove (nat (ios j), nat (ios i))
   | ["sd"; j] -> SDestroy (nat (ios j))
   | ["pg"] -> PoolPurge
+  | ["pq"; _] | ["ps"; _] -> PoolPurge                      (* IOQueue::Purge() / IOStack::Purge() *)
+  | ["qd"; i] -> QPeek (nat (ios i), lq (ios i) "4294967295")   (* IOQueue::Dump: Size + Peek of everything *)
+  | ["sD"; j] -> SIOVec (nat (ios j))                          (* IOStack::Dump: Copy of every block *)
   | _ -> failwith ("bad op " ^ t)
 
 (* lengths of any magnitude: executed as natlen (Len32.v, theorems c15_len_any...) *)
@@ -64,9 +67,14 @@ let out_s (o : out) : string =
   | OBool b -> bool01 b
   | OVec l -> String.concat "." (List.map hex_of_bytes l)
 
+let out_tok (t : string) (o : out) : string =
+  match o with
+  | OVec l when String.length t > 1 && String.sub t 0 2 = "sD" -> hex_of_bytes (List.concat l)
+  | _ -> out_s o
+
 let xout_s (t : string) (y : xout) : string =
   match y with
-  | XUser o -> out_s o
+  | XUser o -> out_tok t o
   | XBool b -> if b then "T" else "F"
   | XSent None -> "ERR"
   | XSent (Some l) -> hex_of_bytes l
@@ -95,9 +103,10 @@ let buf_obs (st : state) (name : string) (sz : op) (em : op) (iv : op) (bl : buf
 let pools_of (m : string) : int list =
   if m = "-" then [] else List.init (String.length m) (fun k -> Char.code m.[k] - Char.code 'A')
 
-let handle_c (label, bsa, bsb, qm, sm, ops) : string =
+let handle_c ?(sender : string option) ?(priv = false) (label, bsa, bsb, qm, sm, ops) : string =
   let qp = pools_of qm and sp = pools_of sm in
-  let st = ref (init2 [nat (ios bsa); nat (ios bsb)] (List.map nat qp) (List.map nat sp)) in
+  let y = ref (yinit [nat (ios bsa); nat (ios bsb)] (List.map nat qp) (List.map nat sp)) in
+  let st = ref !y.y_st in
   let b = Buffer.create 1024 in
   Buffer.add_string b ("class=" ^ label);
   let known = ref false in
@@ -112,8 +121,25 @@ let handle_c (label, bsa, bsb, qm, sm, ops) : string =
   (try
     List.iteri (fun k t ->
       (try
-        let st', o = ok (step2 !st (parse_op2 !st t)) in
-        st := st';
+        let ret =
+          match sender with
+          | None when priv && String.length t > 2 && String.sub t 0 3 = "sd:" ->
+            st := ok (destroy_private !st (nat (ios (String.sub t 3 (String.length t - 3))))); "."
+          | None ->
+            let st', o = ok (step2 !st (parse_op2 !st t)) in
+            st := st'; out_tok t o
+          | Some max ->
+            (* extended operation on the several-pools state (Sender2.ystep) *)
+            let xo = match String.split_on_char ':' t with
+              | ["xs"; j] -> SendS (nat (ios j))
+              | ["xq"; i] -> SendQ (nat (ios i))
+              | ["xw"; k] -> PWrite (Some (lenfor (List.map snd !st.m_q) 0 k))
+              | ["xe"] -> PWrite None
+              | ["xl"] -> Limit
+              | ["qi"; i; w] -> QIn (nat (ios i), nat (ios w))
+              | _ -> UOp (parse_op2 !st t) in
+            let y', r = ok (ystep (n_of_string max) !y xo) in
+            y := y'; st := y'.y_st; xout_s t r in
         let specs = ref [] and inners = ref [] in
         List.iteri (fun i (_, bl) ->
           let s, n = one (Printf.sprintf "q%d" i) (QSize (nat i)) (QEmpty (nat i)) (QIOVec (nat i)) bl in
@@ -122,8 +148,10 @@ let handle_c (label, bsa, bsb, qm, sm, ops) : string =
           let s, n = one (Printf.sprintf "s%d" j) (SSize (nat j)) (SEmpty (nat j)) (SIOVec (nat j)) bl in
           specs := s :: !specs; inners := n :: !inners) !st.m_s;
         if not (acct2_ok !st) then known := true;
-        Buffer.add_string b (Printf.sprintf ";o%d=%s/%s/held-nonempty%s" k (out_s o)
-          (String.concat "/" (List.rev !specs)) (bool01 (noempty2_ok !st)));
+        Buffer.add_string b (Printf.sprintf ";o%d=%s/%s/held-nonempty%s%s" k ret
+          (String.concat "/" (List.rev !specs)) (bool01 (noempty2_ok !st))
+          (match sender with None -> ""
+                           | Some _ -> Printf.sprintf "/assoc%s,reg%s" (bool01 !y.y_assoc) (bool01 !y.y_reg)));
         Buffer.add_string b (Printf.sprintf ";a%d=%s" k (String.concat "/" (List.mapi (fun k ((a, f), h) ->
           Printf.sprintf "P%d:%d,%d,%d" k (int_of_nat a) (int_of_nat f) (int_of_nat h)) (pool_obs !st))));
         Buffer.add_string b (Printf.sprintf ";i%d=%s" k (String.concat "/" (List.rev !inners)))
@@ -135,11 +163,13 @@ let handle_c (label, bsa, bsb, qm, sm, ops) : string =
 
 let handle (p : string) : string =
   match split p with
+  | label :: bsa :: bsb :: qm :: sm :: max :: ops when label.[0] = 'Y' ->
+    handle_c ~sender:max (label, bsa, bsb, qm, sm, ops)
   | label :: bsa :: bsb :: qm :: sm :: ops when label.[0] = 'C' -> handle_c (label, bsa, bsb, qm, sm, ops)
   | label :: _ :: _ :: ops when label.[0] = 'T' ->
     (* every run of every thread must give this trace: a default-constructed IOQueue and IOStack, each
        with a private pool of DEFAULT_BLOCK_SIZE = 1024-byte blocks *)
-    handle_c (label, "1024", "1024", "A", "B", ops) ^ ";threads=ok;distinct=1"
+    handle_c ~priv:true (label, "1024", "1024", "A", "B", ops) ^ ";threads=ok;distinct=1"
   | [label; bsa; bsb; h; n] when label.[0] = 'P' ->
     (match cross_run (nat (ios bsa)) (nat (ios bsb)) (bytes_of_hex h) (nat (ios n)) with
      | Ok c ->
@@ -196,7 +226,7 @@ let handle (p : string) : string =
             let s, n = buf_obs !st (Printf.sprintf "s%d" j) (SSize (nat j)) (SEmpty (nat j))
                 (SIOVec (nat j)) bl in
             specs := s :: !specs; inners := n :: !inners) !st.s_s;
-          Buffer.add_string b (Printf.sprintf ";o%d=%s/%s/acct%s,held-nonempty%s" k (out_s o)
+          Buffer.add_string b (Printf.sprintf ";o%d=%s/%s/acct%s,held-nonempty%s" k (out_tok t o)
             (String.concat "/" (List.rev !specs)) (bool01 (acct_ok !st)) (bool01 (noempty_ok !st)));
           Buffer.add_string b (Printf.sprintf ";i%d=%s/free%d,alloc%d" k
             (String.concat "/" (List.rev !inners)) (int_of_nat (free_blocks !st))
